@@ -518,7 +518,7 @@ func (t *Transition) emitSelfEvents() Result {
 		}
 	}
 
-	return ret
+	return Executed
 }
 
 func (t *Transition) emitEnterEvents() Result {
